@@ -41,7 +41,7 @@ CHECKS = {
 }
 
 # properties whose check has been run green on the unchanged tree
-ENABLED = ["C04", "C05", "C06", "C07"]
+ENABLED = ["C01", "C02", "C04", "C05", "C06", "C07", "C08", "C28"]
 
 NOT_APPLICABLE = {
     "C16": "quantifies over arbitrary byte strings and resource exhaustion; no state machine to specify, a fuzzer's job (DESIGN.md 6)",
@@ -83,7 +83,7 @@ def main():
         "hooks": {
             "guard": "--cfg nervusdb_verif",
             "enable": "RUSTFLAGS='--cfg nervusdb_verif' (set in /verif/harness/.cargo/config.toml; the harness has path dependencies on /repo)",
-            "baseline_off_cmd": "cd /repo && cargo nextest run --workspace --no-fail-fast --tool-config-file pb:/w/lib/nextest.toml --profile pb --test-threads 8 --offline",
+            "baseline_off_cmd": "cd /repo && cargo test --workspace --no-fail-fast --offline",
             "source_commits": hooks,
             "add_only": True,
         },
